@@ -84,7 +84,10 @@ fn k2_from_bool() {
 
 // Floats: only the non-finite inputs (NaN, +inf, -inf; all NaN payloads). A non-finite float is
 // not the number 0, so the conversion must not yield Number(0).
-// (`from_fNN` on arbitrary finite inputs is a separate, thorough-only probe: k2_from_f32_finite.)
+// `#[kani::unwind(2)]`: the finite path of rust_decimal (base2_to_decimal loops) is infeasible under
+// the assumption, so its unwinding assertions are unreachable and hold; without the bound symex
+// unrolls those loops forever. Finite floats were probed (k2_from_f32_smallint) and dropped: no
+// verdict in 120 s (see DROPPED in run_kani.py).
 macro_rules! k2_float_nonfinite {
     ($name:ident, $t:ty, $bits:ty) => {
         #[kani::proof]
